@@ -11,7 +11,7 @@
 use calamine::{Data, Ods, Reader};
 use std::collections::{BTreeMap, HashMap};
 use std::io::Cursor;
-use verif_harness::odsw::{columns_xml, shapes_xml, OdsBook, OdsCell, OdsSheet, OdsVal, RowRun, RowWrap};
+use verif_harness::odsw::{columns_xml, shapes_xml, write_attrs, AttrStyle, OdsBook, OdsCell, OdsSheet, OdsVal, RowRun, RowWrap};
 use verif_harness::{driver::Driver, fnv64, guarded, hex, report::Report, rng::Rng, unhex, Args};
 
 const BIG: usize = 4096;
@@ -323,7 +323,7 @@ fn shrink_unit(f: &Flat, kind: &str, drv: &mut Driver) -> Flat {
 /// text form of an encoded sheet (the replayable input): rows separated by `/`; a row is `<rep>:<cells>` with
 /// `<rep>` empty when the element has no number-rows-repeated attribute; cells separated by `;`; a cell is
 /// `<kind><payload>[=<formula hex>][~][*k]`: `_` blank, `c` covered blank, `f|p|u<f64 bits hex>`,
-/// `s|a|d|t<utf8 hex>`, `b0|b1`; `=…` = table:formula; `~` = has a display `text:p`; `%` = empty string cell without any `text:p` child; `>` = a childless cell is written `<x></x>` instead of `<x/>`; `*k` = number-columns-repeated="k".
+/// `s|a|d|t<utf8 hex>`, `b0|b1`; `=…` = table:formula; `~` = has a display `text:p`; `%` = empty string cell without any `text:p` child; `>` = a childless cell is written `<x></x>` instead of `<x/>`; `@<n>.<m>` = attribute spelling (`odsw::AttrStyle` code n: quotes, white space, order) and blanks-as-`text:s` mode m; `*k` = number-columns-repeated="k".
 fn cell_text(c: &OdsCell) -> String {
     let mut s = match &c.val {
         OdsVal::Empty => if c.covered { "c".to_string() } else { "_".to_string() },
@@ -357,6 +357,9 @@ fn cell_text(c: &OdsCell) -> String {
     if c.display.is_some() {
         s.push('~');
     }
+    if c.attr_style != AttrStyle::default() || c.text_s != 0 {
+        s.push_str(&format!("@{}.{}", c.attr_style.code(), c.text_s));
+    }
     if let Some(k) = c.repeat {
         s.push_str(&format!("*{k}"));
     }
@@ -366,15 +369,17 @@ fn cell_text(c: &OdsCell) -> String {
 /// decorations of the table element that hold no rows: column declarations (shape 0..5 of `odsw::columns_xml`,
 /// 9 = none) for `ncols` columns, and a bit set: 1 `table:table-source`, 2 `office:forms`, 4 `table:shapes` (with a
 /// text box), 8 sheet-local `table:named-expressions` after the rows, 16 `calcext:conditional-formats` after the
-/// rows, 32 `table:protected` / `table:print` attributes on the table, 64 decoy sheets before and after, 128 a table without any child is written `<table:table …/>`
+/// rows, 32 `table:protected` / `table:print` attributes on the table, 64 decoy sheets before and after, 128 a table without any child is written `<table:table …/>`, 256 a sheet that stores no cell at all (declared and repeated blank rows only) right before the sheet under test, 512 another one as the very first sheet
 #[derive(Clone, Copy, Debug, PartialEq)]
 struct Deco {
     col_shape: usize,
     ncols: usize,
     bits: u32,
+    /// `AttrStyle` code of the `table:table` element
+    astyle: u32,
 }
 
-const NO_DECO: Deco = Deco { col_shape: 9, ncols: 1, bits: 0 };
+const NO_DECO: Deco = Deco { col_shape: 9, ncols: 1, bits: 0, astyle: 0 };
 
 const CELL_EXTRA: &str = " table:style-name=\"ce1\" calcext:value-type=\"void\" table:content-validation-name=\"val1\"";
 const ROW_EXTRA: &str = " table:style-name=\"ro1\"";
@@ -402,6 +407,7 @@ fn decorate(sheet: &mut OdsSheet, d: Deco) {
         post.push_str("<calcext:conditional-formats><calcext:conditional-format calcext:target-range-address=\"Sheet1.A1:Sheet1.B2\"><calcext:condition calcext:apply-style-name=\"Good\" calcext:value=\"&gt;1\" calcext:base-cell-address=\"Sheet1.A1\"/></calcext:conditional-format></calcext:conditional-formats>");
     }
     sheet.postlude = post;
+    sheet.attr_style = AttrStyle::from_code(d.astyle);
     if d.bits & 128 != 0 {
         sheet.self_closing = true; // only takes effect on a table without any child
     }
@@ -433,6 +439,9 @@ fn row_text(r: &RowRun) -> String {
     if r.self_closing {
         t.push('Z');
     }
+    if r.attr_style != AttrStyle::default() {
+        t.push_str(&format!("Q{}q", r.attr_style.code()));
+    }
     t.push_str(&format!(
         "{}:{}",
         r.repeat.map(|k| k.to_string()).unwrap_or_default(),
@@ -446,9 +455,9 @@ fn row_text(r: &RowRun) -> String {
 
 /// rows: `<opens><flags><rep>:<cells><closes>` — opens `G` (table-row-group) `H` (table-header-rows) `R` (table-rows)
 /// before the row, flags `V`/`F` (table:visibility collapse/filter) `K` (soft page break before) `Y` (row style),
-/// one `)` per container closed after the row. Optional sheet prefix `P<col shape>.<ncols>.<bits>@` (see `Deco`).
+/// one `)` per container closed after the row. `Q<n>q` = attribute spelling of the row element (`AttrStyle` code). Optional sheet prefix `P<col shape>.<ncols>.<bits>[.<attr style>]@` (see `Deco`).
 fn sheet_text(rows: &[RowRun], d: Deco) -> String {
-    let pre = if d == NO_DECO { String::new() } else { format!("P{}.{}.{}@", d.col_shape, d.ncols, d.bits) };
+    let pre = if d == NO_DECO { String::new() } else { format!("P{}.{}.{}.{}@", d.col_shape, d.ncols, d.bits, d.astyle) };
     if rows.is_empty() {
         return format!("{pre}-");
     }
@@ -459,6 +468,13 @@ fn parse_cell(s: &str) -> OdsCell {
     let (body, rep) = match s.split_once('*') {
         Some((b, k)) => (b, Some(k.parse::<usize>().unwrap())),
         None => (s, None),
+    };
+    let (body, astyle, text_s) = match body.rsplit_once('@') {
+        Some((b, st)) => {
+            let (a, m) = st.split_once('.').expect("style");
+            (b, a.parse::<u32>().unwrap(), m.parse::<u8>().unwrap())
+        }
+        None => (body, 0, 0),
     };
     let (mut body, mut disp, mut ann, mut extra, mut nopara, mut openclose) = (body, false, false, false, false, false);
     loop {
@@ -522,6 +538,8 @@ fn parse_cell(s: &str) -> OdsCell {
     }
     c.empty_paragraph = !nopara;
     c.self_closing = !openclose;
+    c.attr_style = AttrStyle::from_code(astyle);
+    c.text_s = text_s;
     c
 }
 
@@ -529,7 +547,7 @@ fn parse_sheet(s: &str) -> (Vec<RowRun>, Deco) {
     let (deco, s) = match s.strip_prefix('P').and_then(|r| r.split_once('@')) {
         Some((d, rest)) => {
             let p: Vec<&str> = d.split('.').collect();
-            (Deco { col_shape: p[0].parse().unwrap(), ncols: p[1].parse().unwrap(), bits: p[2].parse().unwrap() }, rest)
+            (Deco { col_shape: p[0].parse().unwrap(), ncols: p[1].parse().unwrap(), bits: p[2].parse().unwrap(), astyle: p.get(3).map(|x| x.parse().unwrap()).unwrap_or(0) }, rest)
         }
         None => (NO_DECO, s),
     };
@@ -542,10 +560,15 @@ fn parse_sheet(s: &str) -> (Vec<RowRun>, Deco) {
             let close = r.len() - r.trim_end_matches(')').len();
             let r = r.trim_end_matches(')');
             let (head, cells) = r.split_once(':').expect("row");
+            let (head, rstyle) = match (head.find('Q'), head.find('q')) {
+                (Some(a), Some(b)) if a < b => (format!("{}{}", &head[..a], &head[b + 1..]), head[a + 1..b].parse::<u32>().unwrap()),
+                _ => (head.to_string(), 0),
+            };
             let rep: String = head.chars().filter(|c| c.is_ascii_digit()).collect();
             let mut row = RowRun::new(if cells.is_empty() { vec![] } else { cells.split(';').map(parse_cell).collect() });
             row.repeat = if rep.is_empty() { None } else { Some(rep.parse().unwrap()) };
             row.close = close;
+            row.attr_style = AttrStyle::from_code(rstyle);
             for ch in head.chars() {
                 match ch {
                     'G' => row.open.push(RowWrap::Group),
@@ -601,7 +624,14 @@ fn wrap_rows(rows: &mut [RowRun], rng: &mut Rng) -> Deco {
         if rng.chance(1, 6) {
             row.extra_attrs = ROW_EXTRA.into();
         }
+        if rng.chance(1, 3) {
+            row.attr_style = AttrStyle::from_code(rng.below(32 * 64) as u32);
+        }
         for cell in row.cells.iter_mut() {
+            // every legal spelling of the attributes the reader looks at (repeat count, value type, value, formula)
+            if rng.chance(1, 3) {
+                cell.attr_style = AttrStyle::from_code(rng.below(32 * 64) as u32);
+            }
             if !cell.is_blank() && !cell.covered && rng.chance(1, 8) {
                 cell.span = Some((rng.range(1, 3) as usize, rng.range(1, 3) as usize));
             }
@@ -617,7 +647,8 @@ fn wrap_rows(rows: &mut [RowRun], rng: &mut Rng) -> Deco {
     Deco {
         col_shape: if rng.chance(1, 3) { 9 } else { rng.below(6) as usize },
         ncols: *rng.pick(&[1usize, 2, 3, 7, 1024, 16384]),
-        bits: if rng.chance(1, 2) { rng.below(256) as u32 } else { 0 },
+        bits: if rng.chance(1, 2) { rng.below(1024) as u32 } else { 0 },
+        astyle: if rng.chance(1, 3) { rng.below(32 * 8) as u32 } else { 0 },
     }
 }
 
@@ -641,7 +672,15 @@ fn palette(rng: &mut Rng) -> GCell {
         11 => OdsVal::Date("2021-03-04T05:06:07".into()),
         12 => OdsVal::Time("PT1H2M3S".into()),
         13 => OdsVal::Float(f64::from_bits(rng.next() & 0x7fef_ffff_ffff_ffff | ((rng.next() & 1) << 63))),
-        14 => OdsVal::Str(format!("s{}", rng.below(1000))),
+        14 => {
+            if rng.chance(1, 3) {
+                // runs of blanks around the sizes a reader might treat specially, written as text:s by the encoder
+                let n = *rng.pick(&[2usize, 31, 32, 33, 64, 100, 1000]);
+                OdsVal::Str(format!("{}a{}b  c ", if rng.chance(1, 3) { " " } else { "" }, " ".repeat(n)))
+            } else {
+                OdsVal::Str(format!("s{}", rng.below(1000)))
+            }
+        }
         _ => OdsVal::Float(rng.below(100) as f64),
     };
     match rng.below(12) {
@@ -826,6 +865,9 @@ fn encode(g: &TGrid, rng: &mut Rng) -> Vec<RowRun> {
             cell.self_closing = rng.chance(1, 2);
             // every childless form of a cell: an empty string without its empty paragraph
             cell.empty_paragraph = !rng.chance(1, 2);
+            if matches!(v.0, OdsVal::Str(_)) {
+                cell.text_s = rng.below(3) as u8;
+            }
             cells.push(cell);
             c = col + k;
             i += k as usize;
@@ -893,6 +935,49 @@ fn oracle_dump(cells: &[((u64, u64), u64)]) -> String {
     dump((r0, c0), (r1, c1), &out)
 }
 
+/// a sheet read through the public API against the expansion of what was written: bounds = bounding box of the
+/// non-empty values (formulas), every value (formula) at its position, nothing else stored
+fn check_sheet(r: &calamine::Range<Data>, fr: &calamine::Range<String>, grid: &verif_harness::odsw::Grid) -> Option<String> {
+    fn bbox<'a>(it: impl Iterator<Item = &'a (u64, u64)>) -> Option<((u32, u32), (u32, u32))> {
+        let v: Vec<&(u64, u64)> = it.collect();
+        if v.is_empty() {
+            return None;
+        }
+        Some((
+            (v.iter().map(|p| p.0).min().unwrap() as u32, v.iter().map(|p| p.1).min().unwrap() as u32),
+            (v.iter().map(|p| p.0).max().unwrap() as u32, v.iter().map(|p| p.1).max().unwrap() as u32),
+        ))
+    }
+    let bv = bbox(grid.iter().filter(|(_, v)| v.0 != Data::Empty).map(|(k, _)| k));
+    let bf = bbox(grid.iter().filter(|(_, v)| !v.1.is_empty()).map(|(k, _)| k));
+    if (r.start(), r.end()) != (bv.map(|b| b.0), bv.map(|b| b.1)) {
+        return Some(format!("values range {:?}..{:?}, expected {:?}", r.start(), r.end(), bv));
+    }
+    if (fr.start(), fr.end()) != (bf.map(|b| b.0), bf.map(|b| b.1)) {
+        return Some(format!("formulas range {:?}..{:?}, expected {:?}", fr.start(), fr.end(), bf));
+    }
+    let mut nv = 0;
+    let mut nf = 0;
+    for (p, (v, f)) in grid {
+        if *v != Data::Empty {
+            nv += 1;
+            if r.get_value((p.0 as u32, p.1 as u32)) != Some(v) {
+                return Some(format!("value at {p:?}: {:?}, expected {v:?}", r.get_value((p.0 as u32, p.1 as u32))));
+            }
+        }
+        if !f.is_empty() {
+            nf += 1;
+            if fr.get_value((p.0 as u32, p.1 as u32)) != Some(f) {
+                return Some(format!("formula at {p:?}: {:?}, expected {f:?}", fr.get_value((p.0 as u32, p.1 as u32))));
+            }
+        }
+    }
+    if r.used_cells().count() != nv || fr.used_cells().count() != nf {
+        return Some(format!("{} used values / {} used formulas, expected {nv} / {nf}", r.used_cells().count(), fr.used_cells().count()));
+    }
+    None
+}
+
 fn run_file(rows: &[RowRun], deco: Deco, drv: &mut Driver, stored: bool) -> FileOut {
     let mut sheet = OdsSheet::new("Sheet1", rows.to_vec());
     decorate(&mut sheet, deco);
@@ -954,6 +1039,23 @@ fn run_file(rows: &[RowRun], deco: Deco, drv: &mut Driver, stored: bool) -> File
         book.sheets.insert(0, decoy("A decoy"));
         book.sheets.push(decoy("Zz decoy"));
     }
+    // sheets that declare rows but store no cell at all, in front of sheets with data
+    let blank_sheet = |name: &str| {
+        let mut r0 = RowRun::new(vec![]).times(4);
+        r0.self_closing = true;
+        OdsSheet::new(
+            name,
+            vec![r0, RowRun::new(vec![OdsCell::empty_run(5)]).times(3), RowRun::new(vec![OdsCell::empty().covered(), OdsCell::empty()])],
+        )
+    };
+    if deco.bits & 256 != 0 {
+        let at = book.sheets.iter().position(|s| s.name == "Sheet1").unwrap();
+        book.sheets.insert(at, blank_sheet("Blank before"));
+    }
+    if deco.bits & 512 != 0 {
+        book.sheets.insert(0, blank_sheet("0 blank first"));
+    }
+    let others: Vec<OdsSheet> = book.sheets.iter().filter(|s| s.name != "Sheet1").cloned().collect();
     book.stored = stored;
     let bytes = book.to_bytes();
     let bytes_len = bytes.len();
@@ -962,6 +1064,14 @@ fn run_file(rows: &[RowRun], deco: Deco, drv: &mut Driver, stored: bool) -> File
         let mut ods: Ods<_> = Ods::new(Cursor::new(bytes)).map_err(|e| format!("err:{e:?}"))?;
         let v = ods.worksheet_range("Sheet1").map_err(|e| format!("err:{e:?}"))?;
         let f = ods.worksheet_formula("Sheet1").map_err(|e| format!("err:{e:?}"))?;
+        // every other sheet of the file reads as its own grid too
+        for o in &others {
+            let r = ods.worksheet_range(&o.name).map_err(|e| format!("err:{e:?}"))?;
+            let fr = ods.worksheet_formula(&o.name).map_err(|e| format!("err:{e:?}"))?;
+            if let Some(msg) = check_sheet(&r, &fr, &o.grid()) {
+                return Err(format!("other-sheet '{}': {msg}", o.name));
+            }
+        }
         // reading is independent of the reader's option history: after Row(a) / FirstNonEmptyRow / Row(b) detours the
         // same value reads the same ranges as a freshly opened one (cut by the public `Range::range`)
         if let (Some(st), Some(en)) = (v.start(), v.end()) {
@@ -1225,6 +1335,12 @@ fn file_corpus() -> Vec<&'static str> {
         // seeded C04-m8: childless cells in self-closing form for every kind — an empty string cell without paragraph
         // (`<table:table-cell office:value-type="string"/>`) must not swallow its neighbours; self-closing rows
         ":s%;f3ff0000000000000;s%*2;b1/Z:/:s%>;f4000000000000000",
+        // seeded C04-m9: repeat counts (and every other attribute) in single quotes / with white space around `=`
+        ":_@1.0*3;f3ff0000000000000@2.0*2;_@6.0*2;s61@30.0/Q7q2:_@4.0*2;b1@17.0*2",
+        // seeded C04-m11: sheets that store no cell (declared rows only) in front of sheets with data; every sheet checked
+        "P9.1.832.0@:_;f3ff0000000000000/:f4000000000000000",
+        // seeded C04-m12: blanks written as text:s with counts 32, 33, 1000 (mode 1 and 2)
+        ":s6120202020202020202020202020202020202020202020202020202020202020202062@0.1;s6120202020202020202020202020202020202020202020202020202020202020202062@0.2;s612020202020202020202020202020202020202020202020202020202020202020622063@13.1",
         // spans, annotations (on a value, a string, a blank), foreign attributes, hidden rows, soft page breaks
         "VKY:f3ff0000000000000^2x2#+~;c;s61#;_#*2;b1+/F:c;c;s782079#+",
     ]
@@ -1260,6 +1376,35 @@ struct CellCase {
     text: Option<String>,
     /// no text child: write `<table:table-cell …/>` instead of `<table:table-cell …></table:table-cell>`
     self_closing: bool,
+    /// spelling of the attributes (`odsw::AttrStyle` code; the order field is unused, `attrs` is already shuffled)
+    astyle: u32,
+    /// with a text child: the paragraph is `<text:p>TEXT<text:s text:c="RAW"/>x</text:p>`; `"~"` = `text:s` without
+    /// a `text:c` attribute
+    text_s: Option<String>,
+}
+
+/// what `<text:s text:c="raw"/>` stands for: the count is an `i32` in the code (`str::parse::<i32>`: optional sign,
+/// digits only); zero and negative counts give nothing; anything else is a `ParseInt` error. `~` = attribute absent = 1
+fn text_s_blanks(raw: &str) -> Result<usize, ()> {
+    if raw == "~" {
+        return Ok(1);
+    }
+    let (neg, digits) = match raw.as_bytes().first() {
+        Some(b'-') => (true, &raw[1..]),
+        Some(b'+') => (false, &raw[1..]),
+        _ => (false, raw),
+    };
+    if digits.is_empty() || !digits.bytes().all(|b| b.is_ascii_digit()) {
+        return Err(());
+    }
+    let v: u128 = digits.parse().map_err(|_| ())?;
+    if neg {
+        if v > 2147483648 { Err(()) } else { Ok(0) }
+    } else if v > 2147483647 {
+        Err(())
+    } else {
+        Ok(v as usize)
+    }
 }
 
 impl CellCase {
@@ -1278,10 +1423,17 @@ impl CellCase {
                 CAttr::Other(i) => format!("o{i}"),
             })
             .collect();
-        format!("{}|{}", if a.is_empty() { "-".to_string() } else { a.join(";") }, self.text.as_ref().map(|t| hex(t.as_bytes())).unwrap_or(if self.self_closing { "/".into() } else { "!".into() }))
+        let base = format!("{}|{}", if a.is_empty() { "-".to_string() } else { a.join(";") }, self.text.as_ref().map(|t| hex(t.as_bytes())).unwrap_or(if self.self_closing { "/".into() } else { "!".into() }));
+        if self.astyle == 0 && self.text_s.is_none() {
+            base
+        } else {
+            format!("{base}|{}|{}", self.astyle, self.text_s.as_ref().map(|t| format!("x{}", hex(t.as_bytes()))).unwrap_or("!".into()))
+        }
     }
     fn parse(s: &str) -> CellCase {
-        let (a, t) = s.split_once('|').expect("cell case");
+        let parts: Vec<&str> = s.split('|').collect();
+        let (a, t) = (parts[0], parts[1]);
+        let astyle: u32 = parts.get(2).map(|x| x.parse().unwrap()).unwrap_or(0);
         let txt = |h: &str| String::from_utf8(unhex(h)).unwrap();
         let attrs = if a == "-" {
             vec![]
@@ -1302,22 +1454,27 @@ impl CellCase {
                 })
                 .collect()
         };
-        CellCase { attrs, text: if t == "!" || t == "/" { None } else { Some(txt(t)) }, self_closing: t == "/" }
+        let text_s = parts.get(3).and_then(|x| x.strip_prefix('x')).map(|h| txt(h));
+        CellCase { attrs, text: if t == "!" || t == "/" { None } else { Some(txt(t)) }, self_closing: t == "/", astyle, text_s }
     }
     fn xml(&self) -> String {
         use verif_harness::odsw::{escape_attr, escape_text};
         let mut x = String::from("<table:table-cell");
+        let st = AttrStyle { order: 0, ..AttrStyle::from_code(self.astyle) };
         for a in &self.attrs {
-            x.push(' ');
+            let kv = |k: &str, v: &str| vec![(k.to_string(), escape_attr(v))];
             match a {
-                CAttr::Value(r) => x.push_str(&format!("office:value=\"{}\"", escape_attr(r))),
-                CAttr::Str(r) => x.push_str(&format!("office:string-value=\"{}\"", escape_attr(r))),
-                CAttr::Date(r) => x.push_str(&format!("office:date-value=\"{}\"", escape_attr(r))),
-                CAttr::Time(r) => x.push_str(&format!("office:time-value=\"{}\"", escape_attr(r))),
-                CAttr::Bool(r) => x.push_str(&format!("office:boolean-value=\"{}\"", escape_attr(r))),
-                CAttr::VType(r) => x.push_str(&format!("office:value-type=\"{}\"", escape_attr(r))),
-                CAttr::Formula(r) => x.push_str(&format!("table:formula=\"{}\"", escape_attr(r))),
-                CAttr::Other(i) => x.push_str(OTHER_ATTRS[*i]),
+                CAttr::Value(r) => write_attrs(&mut x, &kv("office:value", r), st),
+                CAttr::Str(r) => write_attrs(&mut x, &kv("office:string-value", r), st),
+                CAttr::Date(r) => write_attrs(&mut x, &kv("office:date-value", r), st),
+                CAttr::Time(r) => write_attrs(&mut x, &kv("office:time-value", r), st),
+                CAttr::Bool(r) => write_attrs(&mut x, &kv("office:boolean-value", r), st),
+                CAttr::VType(r) => write_attrs(&mut x, &kv("office:value-type", r), st),
+                CAttr::Formula(r) => write_attrs(&mut x, &kv("table:formula", r), st),
+                CAttr::Other(i) => {
+                    x.push(' ');
+                    x.push_str(OTHER_ATTRS[*i])
+                }
             }
         }
         if self.text.is_none() && self.self_closing {
@@ -1326,10 +1483,28 @@ impl CellCase {
         }
         x.push('>');
         if let Some(t) = &self.text {
-            x.push_str(&format!("<text:p>{}</text:p>", escape_text(t)));
+            match &self.text_s {
+                None => x.push_str(&format!("<text:p>{}</text:p>", escape_text(t))),
+                Some(raw) => {
+                    let mut sp = String::from("<text:s");
+                    if raw != "~" {
+                        write_attrs(&mut sp, &[("text:c".to_string(), escape_attr(raw))], st);
+                    }
+                    sp.push_str("/>");
+                    x.push_str(&format!("<text:p>{}{}x</text:p>", escape_text(t), sp));
+                }
+            }
         }
         x.push_str("</table:table-cell>");
         x
+    }
+    /// the text content of the element as the reader assembles it (`Err` = `ParseInt`)
+    fn content(&self) -> Result<String, ()> {
+        match (&self.text, &self.text_s) {
+            (None, _) => Ok(String::new()),
+            (Some(t), None) => Ok(t.clone()),
+            (Some(t), Some(raw)) => Ok(format!("{t}{}x", " ".repeat(text_s_blanks(raw)?))),
+        }
     }
     fn wire(&self) -> String {
         if self.attrs.is_empty() {
@@ -1368,7 +1543,7 @@ impl CellCase {
         match (vts[0].as_str(), vals.first()) {
             ("float" | "percentage" | "currency", Some(CAttr::Value(r))) => r.parse::<f64>().ok().map(Data::Float),
             ("string", Some(CAttr::Str(r))) => Some(Data::String(r.clone())),
-            ("string", None) => Some(Data::String(self.text.clone().unwrap_or_default())),
+            ("string", None) => self.content().ok().map(Data::String),
             ("boolean", Some(CAttr::Bool(r))) if r == "true" || r == "false" => Some(Data::Bool(r == "true")),
             ("date", Some(CAttr::Date(r))) => Some(Data::DateTimeIso(r.clone())),
             ("time", Some(CAttr::Time(r))) => Some(Data::DurationIso(r.clone())),
@@ -1441,7 +1616,16 @@ fn gen_cell(rng: &mut Rng) -> CellCase {
     }
     rng.shuffle(&mut attrs);
     let self_closing = rng.chance(1, 2);
-    CellCase { attrs, text, self_closing }
+    let astyle = if rng.chance(1, 2) { rng.below(32) as u32 } else { 0 };
+    let text_s = if text.is_some() && rng.chance(1, 3) {
+        Some(
+            rng.pick(&["~", "0", "1", "2", "31", "32", "33", "64", "100", "1000", "+5", "-1", "-0", "abc", "", " 3", "3 ", "2147483648", "4294967296", "1e2"])
+                .to_string(),
+        )
+    } else {
+        None
+    };
+    CellCase { attrs, text, self_closing, astyle, text_s }
 }
 
 fn cell_corpus() -> Vec<&'static str> {
@@ -1463,6 +1647,16 @@ fn cell_corpus() -> Vec<&'static str> {
         "y737472696e67|/",
         "y666c6f6174;v312e35|/",
         "-|/",
+        // seeded C04-m9 / m12 at the cell level: single quotes and blanks around `=`; text:s counts 32 / 33 / 1000,
+        // absent, 0, negative, signed, unreadable
+        "y737472696e67|61|7|x3333",
+        "y737472696e67|61|0|x31303030",
+        "y737472696e67|61|1|x7e",
+        "y737472696e67|61|0|x30",
+        "y737472696e67|61|0|x2d31",
+        "y737472696e67|61|0|x2b35",
+        "y737472696e67|61|0|x616263",
+        "v312e35;y666c6f6174;f6f663a3d313c32|!|15|!",
     ]
 }
 
@@ -1476,6 +1670,7 @@ fn run_cell(c: &CellCase, drv: &mut Driver) -> Option<(String, String, String, S
         let mut ods: Ods<_> = match Ods::new(Cursor::new(bytes)) {
             Ok(o) => o,
             Err(calamine::OdsError::ParseFloat(_)) => return Err("err".to_string()),
+            Err(calamine::OdsError::ParseInt(_)) => return Err("err:ParseInt".to_string()),
             Err(e) => return Err(format!("err:{e:?}")),
         };
         let v = ods.worksheet_range("Sheet1").map_err(|e| format!("err:{e:?}"))?;
@@ -1498,11 +1693,17 @@ fn run_cell(c: &CellCase, drv: &mut Driver) -> Option<(String, String, String, S
     let reply = drv.ask(&format!("cell {}", c.wire()));
     let model = if let Some(rest) = reply.strip_suffix(" text=1") {
         let (_, f) = rest.split_once(' ').unwrap_or(("", ""));
-        format!("S{} {}", hex(c.text.clone().unwrap_or_default().as_bytes()), f)
+        match c.content() {
+            Ok(t) => format!("S{} {}", hex(t.as_bytes()), f),
+            Err(()) => "err:ParseInt".to_string(),
+        }
     } else {
         reply.strip_suffix(" text=0").unwrap_or(&reply).to_string()
     };
-    let expect = c.expected().map(|d| show_data(&d));
+    let mut expect = c.expected().map(|d| show_data(&d));
+    if expect.is_none() && c.content().is_err() && reply.ends_with(" text=1") {
+        expect = Some("err:ParseInt".to_string()); // pinned: an unreadable text:c is an error, not a guess
+    }
     if let Some(e) = &expect {
         let got = imp.split(' ').next().unwrap_or("");
         if got != e {
@@ -1583,6 +1784,15 @@ fn file_counters(rows: &[RowRun], grid: &verif_harness::odsw::Grid, c: &mut Vec<
     }
     if rows.iter().any(|r| r.cells.is_empty() && r.self_closing) {
         c.push(("file.self_closing_row", 1));
+    }
+    if rows.iter().any(|r| r.attr_style.quote == 1 || r.cells.iter().any(|c| c.attr_style.quote == 1)) {
+        c.push(("file.single_quoted_attributes", 1));
+    }
+    if rows.iter().any(|r| r.cells.iter().any(|c| c.attr_style.eq != 0 && c.repeat.is_some())) {
+        c.push(("file.space_around_eq_on_repeat", 1));
+    }
+    if rows.iter().any(|r| r.cells.iter().any(|c| c.text_s != 0 && matches!(&c.val, OdsVal::Str(t) if t.contains(&" ".repeat(33))))) {
+        c.push(("file.text_s_run_gt_32", 1));
     }
     if rows.iter().any(|r| r.visibility.is_some()) {
         c.push(("file.row_visibility", 1));
@@ -1717,10 +1927,14 @@ fn main() {
          decoy sheets before and after; childless cells / rows / tables in both the self-closing and the open-close form, incl. \
          empty string cells without paragraph; 8 % of the grids sit right behind column 16384 / row 1048576 / 65536 / 2^21 / 2^24 so \
          that single blank runs longer than those limits precede a value; on a quarter of the small files the same reader is \
-         also sent through Row(a) / FirstNonEmptyRow / Row(b) and must agree with fresh reads), read with Ods::worksheet_range and worksheet_formula and compared with the bounding-box oracle \
+         also sent through Row(a) / FirstNonEmptyRow / Row(b) and must agree with fresh reads; attributes of cells, rows and \
+         tables spelled with single or double quotes, white space around `=` and between attributes, in permuted order; blanks of \
+         string cells written as text:s elements with counts up to 1000; sheets without any stored cell in front of the sheet \
+         under test, every sheet of the file checked), read with Ods::worksheet_range and worksheet_formula and compared with the bounding-box oracle \
          of the grid, the Lean model getRange(collectV/collectF runs) and the Lean spec bbox/expand. cell: one table-cell element whose \
          attributes (value-type, 0..2 value attributes, formula, foreign attributes incl. calcext:value-type) stand in random order, \
-         70 % well-formed (one value-type with its matching value attribute or text content), read through the public API vs the \
+         70 % well-formed (one value-type with its matching value attribute or text content), attributes spelled with either quote and any white space around `=`, string content with a `text:s` whose \
+         text:c is around 32/33/64/100/1000, absent, 0, signed, negative or unreadable, read through the public API vs the \
          Lean model of get_datatype's attribute loop vs the typing the property states. non-trivial = a well-formed unit input / a grid \
          with at least one non-empty value / a well-formed cell; distinct by input text",
     );
